@@ -166,14 +166,15 @@ let () =
         if m = obs then Printf.printf "OK %s\n" id
         else Printf.printf "MISMATCH %s update_sidx_big model=%s\n" id m
       | ["R"; id; fl; boxes; minfo; obs] ->
-        (* decode + File.Encode at byte level (C12Bytes): only moof boxes carry their bytes; every other box is
-           an opaque byte string that encodes to itself *)
+        (* decode + File.Encode at byte level (C12Bytes): boxes that carry their bytes are re-encoded through C01's
+           box model (C12C01Model.c01_reenc); a box without bytes is an opaque byte string that encodes to itself *)
         let (bs, classes) = parse_boxes boxes in
         let infos = Array.of_list (L.mapi (fun i s ->
             if s = "-" then { bi_in = [n_of_int (i + 1000)]; bi_enc = [n_of_int (i + 1000)]; bi_doff = None }
             else match split_on ':' s with
               | [p; h] -> let b = bytes_of_hex h in
-                { bi_in = b; bi_enc = b; bi_doff = (if p = "-" then None else Some (n_of_hex p)) }
+                (* what Box.Encode writes for the decoded box: C01's model of DecodeBoxSR + Encode on these bytes *)
+                { bi_in = b; bi_enc = C12C01Model.c01_reenc b; bi_doff = (if p = "-" then None else Some (n_of_hex p)) }
               | _ -> failwith "bad moof info") (split_nonempty ';' (if minfo = "-" then "" else minfo))) in
         let env t = infos.(int_of_n t) in
         let m =
